@@ -23,8 +23,8 @@ that the user did not ask to discard must be found byte-identical in SOME file o
 (its own path, a backup name.~N~, a .THIS / .moved helper, a renamed directory) - or, for the
 merge-like commands, some file holds exactly merge3(base text, u, incoming text) of that file
 id and that merge is clean.  What the user asked to discard: revert(backups=False) and
-remove(force=True) for the selected paths - everything outside the selection must then be
-untouched in place; remove(keep_files=True) and uncommit change no file at all (uncommit:
+remove(force=True) for the selected paths - everything outside the selection must then still
+be kept; remove(keep_files=True) and uncommit change no file at all (uncommit:
 also lstat-identical).  A refused command (BzrError) must leave every u in place."""
 
 import hashlib
@@ -55,7 +55,7 @@ COMPONENTS = {
 ASSUMPTIONS = [
     "user-edited content = regular files only (symlink targets and directories carry no content to lose); U is computed from contents: a file belongs to U unless its bytes equal a text of the basis revision or a file the previous merge created / rewrote (the model's merge_modified: snapshot difference around the previous merge) - so the .THIS helper of an earlier conflict, although it holds the user's earlier bytes, is merge-written and not in U",
     "'kept' = byte-identical content in some regular file below the tree root after the command, wherever it is (contents are unique per edit, so a match is the user's file); 'clean three-way merge' = merge3 package on (text of the file id in the command's base revision, u, text in the incoming revision) without conflict regions",
-    "revert(backups=False) and remove(force=True) are explicit requests to discard the selected paths: nothing is demanded for files inside the selection, everything outside must stay in place (files renamed by the user are left out of this in-place demand)",
+    "revert(backups=False) and remove(force=True) are explicit requests to discard the selected paths: nothing is demanded for files inside the selection, everything outside must be kept (byte-identical somewhere in the tree: reverting a selected file back into a directory that a merge had renamed takes the directory, and the unselected files in it, along; files renamed by the user are left out)",
     "a command that raises a BzrError has refused: U must then be intact in place; any other exception is a violation of its own",
     "only 2a trees (the property's mechanisms - numbered backups, merge-hashes, remove's safety - are the bzr ones); no fault injection here: a failing transform is C13's property (open findings there would resurface under this id)",
     "uncommit: every file below the tree root byte-identical and lstat-identical (mode, size, mtime_ns, inode); control files are not compared",
@@ -574,8 +574,9 @@ def execute(sim, plan):
             if discard:
                 if selected(q) or q in renamed:
                     continue
-                if not in_place(q):
-                    fail("unselected_file_touched", [], "%r is outside the selection %r but is no longer in place (%s)" % (q, selection, where(q) or "gone"))
+                if not kept(q):
+                    fail("unselected_file_lost", [], "%r is outside the selection %r but its content is gone" % (q, selection))
+                sim.probe("unselected_kept_" + where(q))
                 continue
             if kept(q):
                 sim.probe("kept_" + where(q))
